@@ -1,4 +1,5 @@
 CONSTANTS
+  ProtoIdx = {}
   Literals <- LitFull
   ExploreOps <- ExploreAll
   ProbeOps <- ProbeCore
